@@ -28,7 +28,9 @@ Theorem C32_source_facts :
   gen_register_check_and_insert_atomic = true /\ gen_register_reject_closes_without_loops = true /\
   gen_disconnect_removes_only_same_conn = true /\
   gen_readloop_teardown_reports = 1%N /\ gen_keepalive_teardown_reports = 2%N /\
-  gen_agent_cleanup_by_peer_id = true /\ gen_agent_callback_wired = true.
+  gen_agent_cleanup_by_peer_id = true /\ gen_agent_callback_wired = true /\
+  gen_disconnectall_snapshot_and_reset_atomic = true /\ gen_disconnect_delete_under_lock = true /\
+  gen_loops_close_their_own_connection = true /\ gen_agent_cleanup_synchronous = true.
 Proof. repeat split; reflexivity. Qed.
 Print Assumptions C32_source_facts.
 
